@@ -16,19 +16,19 @@ import (
 )
 
 type GenOpts struct {
-	NVal       int
-	NHolders   int
-	NFresh     int
-	NReserved  int // funded actors of the directed scenarios; never used by the random filling
-	MaxTx      int
-	InvalidPct int // percentage of transactions that are intended-invalid
-	W          map[string]int
-	Evidence   int // per-mille probability of an evidence item per block
-	Absent     int // per-mille probability that a non-anchor validator misses a block
-	NoProposer int // per-mille probability of a proposer-less block
-	OddPropose int // per-mille probability of an unknown proposer
-	EVM        bool
-	EqualPower bool
+	NVal             int
+	NHolders         int
+	NFresh           int
+	NReserved        int // funded actors of the directed scenarios; never used by the random filling
+	MaxTx            int
+	InvalidPct       int // percentage of transactions that are intended-invalid
+	W                map[string]int
+	Evidence         int // per-mille probability of an evidence item per block
+	Absent           int // per-mille probability that a non-anchor validator misses a block
+	NoProposer       int // per-mille probability of a proposer-less block
+	OddPropose       int // per-mille probability of an unknown proposer
+	EVM              bool
+	EqualPower       bool
 	OverLimitGenesis bool // allow more genesis validators than MaxValidatorCnt (C01 quantifies over every genesis)
 }
 
@@ -38,18 +38,18 @@ func defaultWeights() map[string]int {
 }
 
 type Gen struct {
-	rng   *rand.Rand
-	G     *GenCfg
-	O     GenOpts
-	Keys  map[string]*Key // by address hex
-	All   []*Key
-	Fresh []*Key
-	Reserved []*Key
-	reserved map[string]bool
-	seq   int64
-	past  []*TxInfo // earlier transactions (for replays)
-	Anchor string
-	Contracts []*contractInfo
+	rng            *rand.Rand
+	G              *GenCfg
+	O              GenOpts
+	Keys           map[string]*Key // by address hex
+	All            []*Key
+	Fresh          []*Key
+	Reserved       []*Key
+	reserved       map[string]bool
+	seq            int64
+	past           []*TxInfo // earlier transactions (for replays)
+	Anchor         string
+	Contracts      []*contractInfo
 	ExtraContracts func() []string // contracts known to the reference EVM (e.g. created by contracts)
 	pendingDeploys []*contractInfo
 }
@@ -364,7 +364,9 @@ func (g *Gen) govOption() string {
 		func() string { return fmt.Sprintf(`"maxValidatorCnt":"%d"`, 1+g.rng.Intn(6)) },
 		func() string { return fmt.Sprintf(`"minValidatorStake":"%s"`, e18(int64(1+g.rng.Intn(30)))) },
 		func() string { return fmt.Sprintf(`"rewardPerPower":"%d"`, 1+g.rng.Intn(4000000000)) },
-		func() string { return fmt.Sprintf(`"gasPrice":"%d"`, []int64{1, 5, 10, 20, 250000000000}[g.rng.Intn(5)]) },
+		func() string {
+			return fmt.Sprintf(`"gasPrice":"%d"`, []int64{1, 5, 10, 20, 250000000000}[g.rng.Intn(5)])
+		},
 		func() string { return fmt.Sprintf(`"minTrxGas":"%d"`, []int{5, 10, 100, 4000}[g.rng.Intn(4)]) },
 		func() string { return fmt.Sprintf(`"signedBlocksWindow":"%d"`, 3+g.rng.Intn(10)) },
 		func() string { return fmt.Sprintf(`"minSignedBlocks":"%d"`, 1+g.rng.Intn(4)) },
@@ -819,7 +821,12 @@ func (g *Gen) spoil(d *txDraft, h int64, sh *MState, P *DParams, price *big.Int,
 			}},
 			{"proposal-start-now", func() bool { cp.StartVotingHeight = h; d.tx.Payload = &cp; return true }},
 			{"proposal-start-past", func() bool { cp.StartVotingHeight = h - 1; d.tx.Payload = &cp; return true }},
-			{"proposal-period-too-long", func() bool { cp.VotingPeriodBlocks = P.MaxVotingPeriodBlocks + 1; cp.ApplyingHeight += P.MaxVotingPeriodBlocks + 1; d.tx.Payload = &cp; return true }},
+			{"proposal-period-too-long", func() bool {
+				cp.VotingPeriodBlocks = P.MaxVotingPeriodBlocks + 1
+				cp.ApplyingHeight += P.MaxVotingPeriodBlocks + 1
+				d.tx.Payload = &cp
+				return true
+			}},
 			{"proposal-period-zero", func() bool {
 				if P.MinVotingPeriodBlocks <= 0 {
 					return false
